@@ -204,6 +204,7 @@ struct aws_directory_iterator *aws_directory_entry_iterator_new(
     const struct aws_string *path) {
     struct aws_directory_iterator *iterator = aws_mem_acquire(allocator, sizeof(struct aws_directory_iterator));
     iterator->allocator = allocator;
+    iterator->current_node = NULL;
     aws_linked_list_init(&iterator->list_data);
 
     /* the whole point of this iterator is to avoid recursion, so let's do that by passing recurse as false. */
